@@ -194,6 +194,14 @@ def features(rec) -> list:
             for f in t[2]:
                 if f[1][0] == "newtype" and f[1][2][0] in ("opt", "any", "none"):
                     out.add("field-newtype-over-nullable")
+    gens = {}
+    for t in subs:
+        if t[0] == "dc" and len(t) > 3:
+            for o in t[3]:
+                if o[0] == "generic":
+                    gens.setdefault(t[1], set()).add(jkey(o[1][1]))
+    if any(len(a) > 1 for a in gens.values()):
+        out.add("generic-multi-specialisation")
     call = rec.get("call") or []
     if call and T[0] == "dc":
         def _flags(D):
